@@ -265,7 +265,7 @@ def _scaled(o, seen=None):
         if id(o) in seen:       # the channel object is shared by the solver and its sub-solvers
             return ["<same object as>", seen[id(o)]]
         seen[id(o)] = len(seen)
-        return ["<obj>", type(o).__name__, {k: _scaled(v, seen) for k, v in vars(o).items()}]
+        return ["<obj>", type(o).__name__, {k: _scaled(v, seen) for k, v in bfs.state_of(o).items()}]
     return o
 
 
@@ -1444,7 +1444,7 @@ class E3Job:
 
         def whole():
             seen = {id(sv._multiUserChannel): 0}
-            return bfs.digest(_scaled(dict(vars(sv)), seen), 9)
+            return bfs.digest(_scaled(dict(bfs.state_of(sv)), seen), 9)
 
         NAMES = ("_F", "_full_F", "_W", "_W_H", "_full_W_H", "_full_W", "_P", "_Ns", "_initialize_with",
                  "_runned_iterations", "max_iterations", "_mu", "_C")
@@ -1586,7 +1586,7 @@ def twin_cases(tier):
 
 def _attr_digests(sv):
     seen = {}
-    return {k: bfs.digest(_scaled(v, seen), 9) for k, v in vars(sv).items()}
+    return {k: bfs.digest(_scaled(v, seen), 9) for k, v in bfs.state_of(sv).items()}
 
 
 def run_twin_case(chk, case):
